@@ -325,7 +325,27 @@ def run_check(mod, prop, tier, seed, replay=None):
         # 1. regenerate + build + audit, under the build lock
         with BuildLock():
             if hasattr(mod, 'generate'):
-                mod.generate(ctx)
+                try:
+                    mod.generate(ctx)
+                except Infra:
+                    raise
+                except Exception as e:  # noqa
+                    # the extractor runs the library on fixed probes; on the unchanged tree every probe returns.  A probe that raises inside library code is a
+                    # failing input of its own (the traceback names it); anything else is a tie that can no longer be regenerated.  The Generated files keep
+                    # what the last successful extraction wrote, the build and the suites go on and look for more.
+                    import traceback
+                    tb = traceback.extract_tb(e.__traceback__)
+                    inner = tb[-1].filename if tb else ''
+                    text = ''.join(traceback.format_exception(type(e), e, e.__traceback__))[-3000:]
+                    probe = next((f for f in reversed(tb) if f.filename.endswith('extract.py')), None)
+                    if os.path.realpath(inner).startswith(os.path.realpath(REPO) + os.sep):
+                        sx = Suite('extract')
+                        sx.fail({'site': '%s:%d %s' % (os.path.relpath(inner, REPO), tb[-1].lineno, tb[-1].name), 'class': 'unforeseen exception',
+                                 'input': 'extraction probe: %s' % (probe.line if probe else 'see traceback'),
+                                 'observed': '%s: %s' % (type(e).__name__, e), 'required': 'the behaviour of the unchanged code (a value)', 'traceback': text})
+                        suites.append(sx)
+                    obligations.append({'name': 'extract (regeneration of lean/Uds/Generated from /repo)', 'kind': 'tie', 'ok': False,
+                                        'detail': 'the extractor could not run to its end on this tree: %s: %s | %s' % (type(e).__name__, e, text[-1200:])})
             targets = list(getattr(mod, 'LEAN_TARGETS', []))
             b = lake_build(['udsdrv'])
             if not b['udsdrv'][0]:
